@@ -129,7 +129,29 @@ func libValidate(v *hx.Version, o *operation.AnchoredOperation) string {
 	if err != nil {
 		return "returned operation carries unparseable signed data / suffix data: " + err.Error()
 	}
+	if o.Type != operation.TypeCreate {
+		// independent of the library's parser: the payload of the compact JWS is one JSON object and nothing else
+		parts := strings.Split(req.SignedData, ".")
+		if len(parts) != 3 {
+			return "returned operation carries signed data that is not a compact JWS"
+		}
+		payload, derr := ref.UnB64(parts[1])
+		var obj map[string]interface{}
+		if derr != nil || json.Unmarshal(payload, &obj) != nil || obj == nil {
+			return "returned operation carries signed data whose payload is not a JSON object document: " + trunc600(string(payload))
+		}
+	}
 	return ""
+}
+
+// withPayloadTrailer appends bytes to the decoded payload of a compact JWS (signatures are not checked when batch files are read).
+func withPayloadTrailer(entry interface{}, trailer string) interface{} {
+	parts := strings.Split(fmt.Sprint(entry), ".")
+	if len(parts) != 3 {
+		return entry
+	}
+	payload, _ := ref.UnB64(parts[1])
+	return parts[0] + "." + ref.B64(append(payload, trailer...)) + "." + parts[2]
 }
 
 // ---------- file sets ----------
@@ -304,7 +326,7 @@ func deltaOK(p protocol.Protocol, d map[string]interface{}) string {
 }
 
 func checkC14(c *hx.Ctx) {
-	c.Rule("valid batch file sets produced by the REAL OperationHandler (all type mixes) are decoded and mutated: structural (entries dropped / duplicated / retargeted between roles, nulls, type confusion, counts skewed between every pair of files, references removed or added), byte-level on compressed and on decompressed-recompressed content, count skews by one and superfluous (empty) proof files on every batch shape (update-free and update-only batches included), multi-member gzip files (padding member past the decompressed limit, second document, trailing bytes), exact size attacks (stored-block gzip of exactly limit / limit+1 bytes; decompressed size exactly limit*factor / +1; compression bombs), CAS URI length at / past the limit, arbitrary anchor strings, primary CAS read failures with 0-3 alternate sources; oracle: GetTxnOperations never panics; on success the number of operations equals the anchor count, suffixes are pairwise distinct, every returned operation passes the library's own batch-mode parse / ValidateDelta / signed-data parse and an independent delta predicate; inputs built to break a stated limit or consistency rule must be rejected and the ones exactly at a limit accepted; crash-isolated workers under ulimit -v; non-trivial = mutated file set; distinct = distinct (files, anchor) inputs")
+	c.Rule("valid batch file sets produced by the REAL OperationHandler (all type mixes) are decoded and mutated: structural (entries dropped / duplicated / retargeted between roles, nulls, type confusion, counts skewed between every pair of files, references removed or added), byte-level on compressed and on decompressed-recompressed content, count skews by one and superfluous (empty) proof files on every batch shape (update-free and update-only batches included), multi-member gzip files (padding member past the decompressed limit, second document, trailing bytes), exact size attacks (stored-block gzip of exactly limit / limit+1 bytes; decompressed size exactly limit*factor / +1; compression bombs), CAS URI length at / past the limit, arbitrary anchor strings, primary CAS read failures with 0-3 alternate sources; oracle: GetTxnOperations never panics; on success the number of operations equals the anchor count, suffixes are pairwise distinct, every returned operation passes the library's own batch-mode parse / ValidateDelta / signed-data parse, an independent check that the signed payload is one JSON object and nothing else, and an independent delta predicate; inputs built to break a stated limit or consistency rule must be rejected and the ones exactly at a limit accepted; crash-isolated workers under ulimit -v; non-trivial = mutated file set; distinct = distinct (files, anchor) inputs")
 	pool := hx.NewPool(c, "provider", 16, 6*1024*1024, 60*time.Second)
 	defer pool.Close()
 	p := c14Proto()
@@ -716,6 +738,19 @@ func checkC14(c *hx.Ctx) {
 			pp[1] = pp[0]
 		}},
 		{"core-proof-signed-data-garbage", func(fs *fileSet) { arr(obj(fs.Trees["core-proof"], "operations"), "recover")[0] = "a.b.c" }},
+		// signed data whose payload is the original JSON object followed by further bytes: not a JSON document, not parseable
+		{"core-proof-recover-signed-data-payload-with-trailing-bytes", func(fs *fileSet) {
+			a := arr(obj(fs.Trees["core-proof"], "operations"), "recover")
+			a[0] = withPayloadTrailer(a[0], "xyz")
+		}},
+		{"core-proof-deactivate-signed-data-payload-with-second-object", func(fs *fileSet) {
+			a := arr(obj(fs.Trees["core-proof"], "operations"), "deactivate")
+			a[0] = withPayloadTrailer(a[0], `{"didSuffix":"other"}`)
+		}},
+		{"provisional-proof-update-signed-data-payload-with-trailing-bytes", func(fs *fileSet) {
+			a := arr(obj(fs.Trees["prov-proof"], "operations"), "update")
+			a[len(a)-1] = withPayloadTrailer(a[len(a)-1], " ]")
+		}},
 		{"provisional-proof-signed-data-empty", func(fs *fileSet) { arr(obj(fs.Trees["prov-proof"], "operations"), "update")[0] = "" }},
 		{"create-suffix-data-null", func(fs *fileSet) {
 			arr(obj(fs.Trees["core-index"], "operations"), "create")[0].(map[string]interface{})["suffixData"] = nil
